@@ -1,0 +1,70 @@
+//go:build verif
+
+package security
+
+// Contracts for the deductive check in /verif (comment-only; compiled only with -tags verif).
+// Syntax: see /verif/DESIGN.md section 4.
+
+// ---- C11: NAS COUNT ----
+// Representation invariant  Inv(c) := c.count < 2^24
+// Abstract view             ovf(c) = (c.count >> 8) & 0xffff,  sqn(c) = c.count & 0xff
+
+//@ func (counter *Count) maskTo24Bits()
+//@   assigns counter.count
+//@   ensures counter.count == old(counter.count) & 0xffffff
+//@ end
+
+//@ func (counter *Count) Set(overflow, sqn)
+//@   requires counter.count < 0x1000000
+//@   assigns counter.count
+//@   ensures counter.count < 0x1000000
+//@   ensures counter.count == uint32(overflow)<<8 | uint32(sqn)
+//@   ensures counter.count == uint32(overflow)*256 + uint32(sqn)
+//@ end
+
+//@ func (counter *Count) Get() (r)
+//@   requires counter.count < 0x1000000
+//@   assigns counter.count
+//@   ensures counter.count == old(counter.count)
+//@   ensures r == old(counter.count)
+//@   ensures r < 0x1000000
+//@   ensures r == ((r >> 8) & 0xffff)*256 + (r & 0xff)
+//@ end
+
+//@ func (counter *Count) AddOne()
+//@   requires counter.count < 0x1000000
+//@   assigns counter.count
+//@   ensures counter.count < 0x1000000
+//@   ensures counter.count == (old(counter.count) + 1) & 0xffffff
+//@   ensures implies(old(counter.count) & 0xff == 0xff, counter.count & 0xff == 0 && (counter.count >> 8) & 0xffff == ((old(counter.count) >> 8) + 1) & 0xffff)
+//@   ensures implies(old(counter.count) & 0xff != 0xff, counter.count & 0xff == (old(counter.count) & 0xff) + 1 && counter.count >> 8 == old(counter.count) >> 8)
+//@   ensures implies(old(counter.count) == 0xffffff, counter.count == 0)
+//@ end
+
+//@ func (counter *Count) SQN() (r)
+//@   requires counter.count < 0x1000000
+//@   assigns nothing
+//@   ensures r == uint8(counter.count & 0xff)
+//@ end
+
+//@ func (counter *Count) SetSQN(sqn)
+//@   requires counter.count < 0x1000000
+//@   assigns counter.count
+//@   ensures counter.count < 0x1000000
+//@   ensures counter.count & 0xff == uint32(sqn)
+//@   ensures counter.count >> 8 == old(counter.count) >> 8
+//@ end
+
+//@ func (counter *Count) Overflow() (r)
+//@   requires counter.count < 0x1000000
+//@   assigns nothing
+//@   ensures r == uint16((counter.count >> 8) & 0xffff)
+//@ end
+
+//@ func (counter *Count) SetOverflow(overflow)
+//@   requires counter.count < 0x1000000
+//@   assigns counter.count
+//@   ensures counter.count < 0x1000000
+//@   ensures (counter.count >> 8) & 0xffff == uint32(overflow)
+//@   ensures counter.count & 0xff == old(counter.count) & 0xff
+//@ end
